@@ -52,15 +52,16 @@ Section StitchProg.
       (flat_map (fun d => match d with DHunkSub _ s => [s] | _ => [] end) ds).
 
   (* IndexRead::hunks_available: list i/, then each sub-directory in name order.
-     Any failure is `.expect("hunks available")`: a panic. *)
-  Fixpoint list_subdirs (b : N) (subs : list N) (acc : list N) (k : list N -> prog sres) : prog sres :=
+     A failure makes try_iter_available_hunks return Err ([kfail]). *)
+  Fixpoint list_subdirs (b : N) (subs : list N) (acc : list N) (kfail : prog sres) (k : list N -> prog sres)
+    : prog sres :=
     match subs with
     | [] => k acc
     | s :: subs' =>
         Do (OpList (DHunkSub b s)) (fun r =>
           match r with
-          | RList _ fs => list_subdirs b subs' (acc ++ hunk_numbers fs) k
-          | _ => Panic
+          | RList _ fs => list_subdirs b subs' (acc ++ hunk_numbers fs) kfail k
+          | _ => kfail
           end)
     end.
 
@@ -98,9 +99,9 @@ Section StitchProg.
           Do (OpList (DIndex (N.of_nat n))) (fun r2 =>
             match r2 with
             | RList ds _ =>
-                list_subdirs (N.of_nat n) (subdir_numbers ds) []
+                list_subdirs (N.of_nat n) (subdir_numbers ds) [] (k_after last acc (merr + 1))
                   (fun hs => hunks_loop n hs last last acc merr k_after)
-            | _ => Panic
+            | _ => k_after last acc (merr + 1)        (* monitor.error(err); AfterBand *)
             end)
       end).
 
